@@ -327,5 +327,18 @@ package node
 //@   modifies *cr.CS, allelems(*cr.CS), *cr.DS, allelems(*cr.DS), mapof(*cr.Dbg)
 //@   ensures[K2_code] csKept(cr) && csNewWF(cr) && dsKept(cr) && crOK(cr)
 //
+// ---- name resolution (C04) -------------------------------------------------------------------------
+// A variable read resolves to the function's own slot, else to the slot of the immediately enclosing
+// function (captured by the closure), else it stays a global name. Only these two scopes are consulted:
+// only the immediately enclosing frame is captured at run time.
+//@ func (Name).STRewrite [C04]
+//@   checks index nil [C04]
+//@   ensures[own;C04] len(symTbl) >= 1 && mapdom(symTbl[len(symTbl)-1], string(n)) ==>
+//@       dyntype(result) == typeid[Local]() && result.(Local).Ix == symTbl[len(symTbl)-1][string(n)] && result.(Local).VarName == string(n)
+//@   ensures[captured;C04] len(symTbl) >= 2 && !mapdom(symTbl[len(symTbl)-1], string(n)) && mapdom(symTbl[len(symTbl)-2], string(n)) ==>
+//@       dyntype(result) == typeid[Closure]() && result.(Closure).Ix == symTbl[len(symTbl)-2][string(n)] && result.(Closure).VarName == string(n)
+//@   ensures[global;C04] (len(symTbl) < 1 || !mapdom(symTbl[len(symTbl)-1], string(n))) && (len(symTbl) < 2 || !mapdom(symTbl[len(symTbl)-2], string(n))) ==>
+//@       dyntype(result) == typeid[Name]() && result.(Name) == n
+//
 //@ canary func (Name).Name
 //@   ensures false
